@@ -4,7 +4,7 @@
 # prints one summary line:  CONFIRM <name> demo_without=<exit> suite=<lib passed>/<doc passed>/<failed> demo_with=<exit>
 name=$1; wt=$2; sd=$3
 cd "$wt" || exit 2
-git stash -q 2>/dev/null; git stash drop -q 2>/dev/null   # start from a clean tree (keeps untracked example)
+# (never use git stash here: the stash is shared by all worktrees of a repository)
 git checkout -q -- .
 mkdir -p examples; cp "$sd/demo.rs" examples/seed_demo.rs
 cargo run --offline --quiet --example seed_demo >/tmp/seed_out_$name.txt 2>&1; w0=$?
